@@ -340,7 +340,22 @@ def gen_scratch(prop, job, dest, t1=True, extra_tests=None, cap=None, release=Fa
                 prelude = ex.get('prelude', '')
                 if not t1:
                     prelude = ex.get('prelude_native', prelude.replace('shared::vcoll::', 'std::collections::').replace('crate::vcoll::', 'std::collections::'))
-                body = extract_fns(src, ex['fns'], ex['from'])
+                body = extract_fns(src, ex.get('fns', []), ex['from']) if ex.get('fns') else ''
+                for name in ex.get('fns_optional', []):
+                    # helper functions a later version of the file may (or may not) have: copied when present
+                    if re.search(r'^[ \t]*(?:pub(?:\([a-z]+\))?\s+)?fn\s+' + re.escape(name) + r'\b', src, re.M):
+                        body += '\n' + extract_fns(src, [name], ex['from'])
+                for st in ex.get('stmts', []):
+                    # statements / expressions of a function body, copied verbatim into a wrapper (T3s):
+                    # {"in_fn", "parts": [{"regex", "group", "optional"}], "wrap"} ; @P<i>@ in wrap = text of part i
+                    fbody = extract_fns(src, [st['in_fn']], ex['from'])
+                    w = st['wrap']
+                    for i, part in enumerate(st['parts']):
+                        mm = re.search(part['regex'], fbody)
+                        if not mm and not part.get('optional'):
+                            raise Inconclusive('T3s: %r not found in fn %s of %s' % (part['regex'], st['in_fn'], ex['from']))
+                        w = w.replace('@P%d@' % i, mm.group(part.get('group', 0)) if mm else '')
+                    body += '\n' + w + '\n'
                 if t1 and ex.get('t1_vec'):
                     body = re.sub(r'(?<![\w:])vec!\[', model_crate + '::vvec![', body)
                 for a, b in (ex.get('subst', []) if t1 else []):
@@ -641,7 +656,7 @@ def playback_extract(prop, job, h, root):
     """Second run of a failed harness with concrete playback on; returns rust test text or None."""
     dest = os.path.join(root, 'pb.' + h['name'])
     os.makedirs(dest)
-    mem = min(max(h.get('mem_gb', 8) * 3, 24), 48)
+    mem = min(max(h.get('mem_gb', 8) * 2, 16), 40)
     key = budget_acquire('pb.' + h['name'], mem)
     try:
         gen_scratch(prop, job, dest, t1=True)
